@@ -567,10 +567,6 @@ def get_bs_cached(cols, basis_dir=None, legendre_orders=[0, 2],
     basis_name = "linbasex_basis_{}_{}_{}_{}_{}.npy".format(cols, los, pas,
                                                             radial_step, clip)
 
-    _los = los
-    _pas = pas
-    _radial_step = radial_step
-    _clip = clip
     if basis_dir == '':
         basis_dir = abel.transform.get_basis_dir(make=True)
     if basis_dir is not None:
@@ -579,6 +575,7 @@ def get_bs_cached(cols, basis_dir=None, legendre_orders=[0, 2],
             if verbose:
                 print('loading {} ...'.format(path_to_basis_file))
             _basis = np.load(path_to_basis_file)
+            _los, _pas, _radial_step, _clip = los, pas, radial_step, clip
             return _basis
 
     if verbose:
@@ -588,6 +585,7 @@ def get_bs_cached(cols, basis_dir=None, legendre_orders=[0, 2],
     _basis = _bs_linbasex(cols, proj_angles=proj_angles,
                      legendre_orders=legendre_orders, radial_step=radial_step,
                      clip=clip)
+    _los, _pas, _radial_step, _clip = los, pas, radial_step, clip
 
     if basis_dir is not None:
         path_to_basis_file = os.path.join(basis_dir, basis_name)
